@@ -1270,6 +1270,99 @@ theorem pdst_path_checks [DecidableEq S] (P : CPDST.Problem S U α ρ)
   obtain ⟨rest', e1, e2, e3, e4, _⟩ := interpolate_preserves_replay P.step P.valid p s0 rest h1 h4 h5 h6
   exact check_complete P.step P.valid _ s0 rest' e1 e2 e3 e4 h3
 
+/-! ### later `solve()` calls on the same planner (`CPDST.resume`)
+
+`CPDST.Reach P starts st`: `st` is the planner state after a first `solve` and any finite number of
+later `solve()` calls (`resume`), `starts` the start states handed out so far.  `hgoal`: a state that
+satisfies the goal is never strictly farther from it than one that does not (true for a
+`GoalRegion` threshold test).  It is needed because a resumed loop can run with `isApproximate =
+false` (exact `lastGoalMotion_`, problem definition cleared): a closer *non-goal* motion would then
+replace `lastGoalMotion_` while the flag stays `false` — `pdst_resume_exact_goal_fails` below shows
+that `hgoal` cannot be dropped (finding F160). -/
+
+/-- **every reachable PDST state is sound and a later `solve()` keeps it so**: after `resume` from a
+reachable state every motion satisfies the conclusion of `pdst_segments_sound` (start set `starts ++
+newStarts`), `lastGoalMotion_` points into the tree, and status `exact` means the goal holds at its end
+state — in the early return (flag recomputed by `headFlags`) as well as after the fall-through, where
+`isApproximate` is recomputed and not inherited. -/
+theorem pdst_resume_sound (P : CPDST.Problem S U α ρ)
+    (hrng : ∀ g hi, 1 ≤ hi → 1 ≤ (P.rngInt1 g hi).1 ∧ (P.rngInt1 g hi).1 ≤ hi)
+    (hgoal : ∀ a b, (P.goal a).1 = true → (P.goal b).1 = false → ¬ ((P.goal b).2 < (P.goal a).2))
+    (starts : List S) (st : CPDST.St S U α ρ) (hreach : CPDST.Reach P starts st)
+    (flag : Bool) (newStarts : List S) (draws2 : List (CPDST.Draw S U)) :
+    let r := CPDST.resume P st flag newStarts draws2
+    (∀ (i : Nat) (m : CPDST.PMotion S U α), r.final.motions[i]? = some m →
+      (m.control = none ∧ m.ctl = none ∧ m.dur = 0 ∧ m.start = m.stop ∧ m.start ∈ starts ++ newStarts ∧
+        P.valid m.start = true ∧ m.parent = none) ∨
+      (∃ u, m.control = some u ∧ (∃ c, m.ctl = some c) ∧ (1 ≤ P.minSteps → 1 ≤ m.dur) ∧
+        m.stop = propagate P.step m.start u m.dur ∧
+        (∀ j, 1 ≤ j → j ≤ m.dur → P.valid (propagate P.step m.start u j) = true) ∧ P.valid m.start = true ∧
+        ∃ p pm, m.parent = some p ∧ r.final.motions[p]? = some pm ∧
+          ((m.ctl = pm.ctl ∧ m.start = pm.stop ∧ m.control = pm.control) ∨
+           (m.ctl ≠ pm.ctl ∧ CPDST.OnChain P.step r.final.motions p m.start)))) ∧
+    (∀ l, r.final.lastGoal = some l → ∃ m, r.final.motions[l]? = some m) ∧
+    (r.status = .exact →
+      ∃ l m, r.final.lastGoal = some l ∧ r.final.motions[l]? = some m ∧ (P.goal m.stop).1 = true) ∧
+    CPDST.Reach P (starts ++ newStarts) r.final := by
+  intro r
+  obtain ⟨hG, hl⟩ := CPDST.reach_good P hrng hgoal starts st hreach
+  obtain ⟨h1, h2, h3, _⟩ := CPDST.resume_good P starts hrng hgoal st hG hl flag newStarts draws2
+  exact ⟨fun i m hm => h1.seg i m hm, h2, h3, .again flag newStarts draws2 hreach⟩
+
+/-- **a path published by a later `solve()` replays and ends at `lastGoalMotion_`** (hypotheses of
+`pdst_solution_replays` plus `hgoal`). -/
+theorem pdst_resume_replays (P : CPDST.Problem S U α ρ)
+    (hclose : ∀ a b, P.close a b = true → a = b) (hrefl : ∀ a, P.close a a = true)
+    (hmin : 1 ≤ P.minSteps)
+    (hrng : ∀ g hi, 1 ≤ hi → 1 ≤ (P.rngInt1 g hi).1 ∧ (P.rngInt1 g hi).1 ≤ hi)
+    (hgoal : ∀ a b, (P.goal a).1 = true → (P.goal b).1 = false → ¬ ((P.goal b).2 < (P.goal a).2))
+    (starts : List S) (st : CPDST.St S U α ρ) (hreach : CPDST.Reach P starts st)
+    (flag : Bool) (newStarts : List S) (draws2 : List (CPDST.Draw S U)) (p : Path S U)
+    (h : (CPDST.resume P st flag newStarts draws2).path = some p) :
+    (∃ s0 rest, p.states = s0 :: rest ∧ s0 ∈ starts ++ newStarts ∧ P.valid s0 = true ∧
+      rest.length = p.controls.length ∧ p.steps.length = p.controls.length ∧
+      ReplayOK P.step P.valid s0 (segs rest p.controls p.steps)) ∧
+    (∃ l m, (CPDST.resume P st flag newStarts draws2).final.lastGoal = some l ∧
+      (CPDST.resume P st flag newStarts draws2).final.motions[l]? = some m ∧
+      p.states.getLast? = some m.stop) ∧
+    ((CPDST.resume P st flag newStarts draws2).status = .exact →
+      ∃ last, p.states.getLast? = some last ∧ (P.goal last).1 = true) := by
+  obtain ⟨hG, hl⟩ := CPDST.reach_good P hrng hgoal starts st hreach
+  obtain ⟨h1, _, h3, h4⟩ := CPDST.resume_good P starts hrng hgoal st hG hl flag newStarts draws2
+  obtain ⟨l, hlg, ha⟩ := h4 p h
+  obtain ⟨s0, sl, lm, rfl, a1, a2, a3, a4, a5⟩ := CPDST.assemble_spec P _ _ _ h1 hclose hrefl hmin l p ha
+  have hlast : (ofSegs s0 sl).states.getLast? = some lm.stop := by rw [← a5]; exact getLast?_states s0 sl
+  refine ⟨⟨s0, sl.map (·.2.2), rfl, a1, a2, by simp [ofSegs], by simp [ofSegs], ?_⟩, ⟨l, lm, hlg, a4, hlast⟩, ?_⟩
+  · simp only [ofSegs, segs_map]; exact a3
+  · intro hex
+    obtain ⟨l', m', e1, e2, e3⟩ := h3 hex
+    rw [hlg] at e1; cases Option.some.inj e1
+    rw [a4] at e2; cases Option.some.inj e2
+    exact ⟨lm.stop, hlast, e3⟩
+
+/-- **the early return, and re-publication after the problem definition was cleared** (fix
+2f8c24625): with an exact `lastGoalMotion_`, a later `solve()` returns `EXACT_SOLUTION` at once —
+adding no path and leaving the planner untouched — only while the problem definition still holds an
+exact solution; if it does not, the same call (no new starts, no iteration) publishes the path to
+`lastGoalMotion_` again with status exact. -/
+theorem pdst_resume_early_return (P : CPDST.Problem S U α ρ) (st : CPDST.St S U α ρ) (l : Nat)
+    (m : CPDST.PMotion S U α) (hl : st.lastGoal = some l) (hm : st.motions[l]? = some m)
+    (hg : (P.goal m.stop).1 = true) (newStarts : List S) (draws2 : List (CPDST.Draw S U)) :
+    ((CPDST.resume P st true newStarts draws2).path = none ∧
+      (CPDST.resume P st true newStarts draws2).status = .exact ∧
+      (CPDST.resume P st true newStarts draws2).final = st) ∧
+    ((CPDST.resume P st false [] []).path = CPDST.assemble P st.motions l ∧
+      (CPDST.resume P st false [] []).status = .exact) :=
+  CPDST.resume_early P st l m hl hm hg newStarts draws2
+
+/-- **`init` and `addStart` agree on a fresh planner**: on the single-leaf BSP `stab` answers the
+root cell, so entering the start motions through the leaf lookup (fix eb25d2355) is what the first
+`solve` always did. -/
+theorem pdst_init_is_addStart (P : CPDST.Problem S U α ρ) (g : ρ) (starts : List S) :
+    CPDST.init P g starts = (starts.filter P.valid).foldl (CPDST.addStart P)
+      { motions := #[], cells := #[{ volume := Num.ofNat 1, splitDim := 0, splitValue := Num.ofNat 0, kids := none, lo := P.lo, hi := P.hi, motions := [] }], heap := {}, rng := g, iteration := 1, nextCtl := 0, lastGoal := none, closest := P.inf, isApprox := true } :=
+  CPDST.init_eq_addStart P g starts
+
 /-- a fixed-point toy `Num Int` (scale 10, so that the `0.5` of `Cell::subdivide` exists) for kernel
 evaluation of the arithmetic-free control flow — not a model of `double` -/
 @[reducible] def numFix : Num Int where
@@ -1341,5 +1434,89 @@ example := @pdst_solution_replays Nat Nat Int Nat numFix pdN (fun a b h => by si
 example := @pdst_exact_path_in_goal Nat Nat Int Nat numFix pdN (fun a b h => by simpa [pdN] using h)
   (fun a => by simp [pdN]) (Nat.le_refl 1) pdN_hrng 0 [0] pdScript
 example := @pdst_status Nat Nat Int Nat numFix pdN 0 [0] pdScript
+
+
+/-- non-vacuity for the later `solve()` calls: on the exact final state of the toy run, the early
+return publishes nothing; with the problem definition cleared the same path is published again; and a
+resumed run with a new start state and one more draw keeps everything sound. -/
+example :
+    (@CPDST.resume Nat Nat Int Nat numFix pdN (pdRes 3).final true [] []).path.isNone = true ∧
+    (@CPDST.resume Nat Nat Int Nat numFix pdN (pdRes 3).final true [] []).status = .exact ∧
+    (@CPDST.resume Nat Nat Int Nat numFix pdN (pdRes 3).final false [] []).path.map
+      (fun p => (p.states, p.controls, p.steps)) = some ([0, 10, 13], [2, 1], [5, 3]) ∧
+    (@CPDST.resume Nat Nat Int Nat numFix pdN (pdRes 3).final false [2] [{ sample := 5, ctl := [(1, 2)] }]).final.motions.size = 9 := by
+  decide +kernel
+
+theorem pdN_hgoal : ∀ a b, (pdN.goal a).1 = true → (pdN.goal b).1 = false →
+    ¬ (@LT.lt Int numFix.toLT (pdN.goal b).2 (pdN.goal a).2) := by
+  intro a b ha hb
+  have ha' : a = 13 := by simpa [pdN] using ha
+  subst ha'
+  show ¬ ((10 : Int) * Int.ofNat (distN b 13) < 10 * Int.ofNat (distN 13 13))
+  have h0 : distN 13 13 = 0 := by decide
+  rw [h0]
+  have : (0 : Int) ≤ Int.ofNat (distN b 13) := Int.natCast_nonneg _
+  simp only [Int.ofNat_eq_natCast] at this ⊢
+  omega
+
+example := @pdst_resume_sound Nat Nat Int Nat numFix pdN pdN_hrng pdN_hgoal [0] (pdRes 3).final
+  (@CPDST.Reach.first Nat Nat Int Nat numFix pdN 0 [0] (pdScript.take 3)) false [2] [{ sample := 5, ctl := [(1, 2)] }]
+
+example := @pdst_init_is_addStart Nat Nat Int Nat numFix pdN 0 [0, 20, 3]
+example := @pdst_resume_early_return Nat Nat Int Nat numFix pdN
+
+/-! ### F160: without `hgoal` a resumed PDST can flag a non-goal path as exact -/
+
+/-- `pdN` with a goal that is satisfied only at state 13 while its reported distance is measured to
+state 14: a non-satisfying state (14) is strictly closer than the satisfying one -/
+def pdW : @CPDST.Problem Nat Nat Int Nat :=
+  { pdN with goal := fun s => (decide (s = 13), 10 * Int.ofNat (distN s 14)) }
+
+def pdW0 : CPDST.Result Nat Nat Int Nat := @CPDST.solve Nat Nat Int Nat numFix pdW 0 [0] pdScript
+
+def pdW1 : CPDST.Result Nat Nat Int Nat :=
+  @CPDST.resume Nat Nat Int Nat numFix pdW pdW0.final false [] [{ sample := 12, ctl := [(1, 2)] }]
+
+/-- this toy violates `hgoal` -/
+example : ¬ (∀ a b, (pdW.goal a).1 = true → (pdW.goal b).1 = false →
+    ¬ (@LT.lt Int numFix.toLT (pdW.goal b).2 (pdW.goal a).2)) := by
+  intro h
+  exact h 13 14 (by decide) (by decide) (by decide)
+
+/-- **F160 (witness, kernel evaluation).**  The first `solve` reaches the goal exactly (motion 5, end
+state 13).  The problem definition is then cleared (`pdefHasExact = false`) and `solve()` is called
+again with one more iteration: its new motion `12 → 14` does NOT satisfy the goal but is closer by
+the goal's own distance, so it replaces `lastGoalMotion_` while `isApproximate` stays `false` — the
+run reports status `exact`, `lastGoalMotion_` is a non-goal motion, and the published path
+`0 → 10 → 12 → 14` ends in a state that does not satisfy the goal.  Hence the exact clause of
+`pdst_resume_sound` (and of `pdst_resume_replays`) is false without `hgoal`. -/
+theorem pdst_resume_exact_goal_fails :
+    pdW0.status = .exact ∧ pdW0.final.lastGoal = some 5 ∧
+    pdW1.status = .exact ∧ pdW1.final.isApprox = false ∧
+    (∃ l m, pdW1.final.lastGoal = some l ∧ pdW1.final.motions[l]? = some m ∧ (pdW.goal m.stop).1 = false) ∧
+    pdW1.path.map (fun p => (p.states, p.controls, p.steps)) = some ([0, 10, 12, 14], [2, 1, 1], [5, 2, 2]) ∧
+    (pdW.goal 14).1 = false := by
+  have h6 : pdW1.final.lastGoal = some 6 := by decide +kernel
+  have hm : (pdW1.final.motions[6]?).map (fun m => (m.start, m.stop)) = some (12, 14) := by decide +kernel
+  refine ⟨by decide +kernel, by decide +kernel, by decide +kernel, by decide +kernel, ?_, by decide +kernel,
+    by decide⟩
+  cases hq : pdW1.final.motions[6]? with
+  | none => rw [hq] at hm; cases hm
+  | some m =>
+    rw [hq] at hm
+    have hs : m.stop = 14 := by
+      have := Option.some.inj hm
+      exact (Prod.mk.inj this).2
+    exact ⟨6, m, h6, hq, by rw [hs]; decide⟩
+
+/-- so the negation of the exact clause holds on this run -/
+example : ¬ (pdW1.status = .exact →
+    ∃ l m, pdW1.final.lastGoal = some l ∧ pdW1.final.motions[l]? = some m ∧ (pdW.goal m.stop).1 = true) := by
+  intro h
+  obtain ⟨l, m, a, b, c⟩ := h pdst_resume_exact_goal_fails.2.2.1
+  obtain ⟨l', m', a', b', c'⟩ := pdst_resume_exact_goal_fails.2.2.2.2.1
+  rw [a] at a'; cases Option.some.inj a'
+  rw [b] at b'; cases Option.some.inj b'
+  rw [c] at c'; cases c'
 
 end OmplModel.Props.C02
